@@ -270,7 +270,9 @@ func runC17(c *ctx) {
 		"plus a third as many histories with conflicting duplicates (a second, different but individually valid message of the same sender / round / kind after the genuine one: nothing changes, a completing victim returns the undisturbed result); " +
 		"oracles: no panic, no hang, closed iff ended, Result stable after the end, Stop ends a running session; each history replayed in the Coq model " +
 		"(the message the round code panics on carries the model's panic flag -- in verify/store, or in Finalize of its round -- and the full observation is compared: nobody named, error kind, forwarded messages, notice, closes, queues, digests); non-trivial = non-empty history; " +
-		"concurrent sessions with a panicking message under Result / CanAccept / Stop / Accept from other goroutines (no escaping panic, Result fixed after the end, closed)"
+		"concurrent sessions with a panicking message under Result / CanAccept / Stop / Accept from other goroutines (no escaping panic, Result fixed after the end, closed); " +
+		"lazy reader: CMP signing sessions (n=2, n=3) in which nobody reads the victim's Listen() until the buffer is exactly full (2n), ended then by Stop / a peer's abort notice / an undecodable message / a message the round code panics on, " +
+		"followed by further calls and the reader's final read (closed iff ended, Result stable, no hang other than the model's BlockedOnSend), replayed in the model with drain events"
 	n := 150
 	if c.thorough() {
 		n = 3000
@@ -322,6 +324,8 @@ func runC17(c *ctx) {
 			}
 		} else if strings.HasPrefix(rp.Spec, "doerner-") {
 			c.c17TwoParty()
+		} else if strings.Contains(rp.Spec, "/lazy-reader/") {
+			c.c17LazyRun(&rp)
 		}
 		return
 	}
@@ -341,6 +345,8 @@ func runC17(c *ctx) {
 	// TwoPartyHandler (Doerner sessions): same oracles, replayed in Model/TwoParty.v; a few of its (larger) histories go to cases.v
 	c.m.MaxLog, c.m.MaxLogSize = c.m.MaxLog+12, 8000
 	c.c17TwoParty()
+	// sessions that end while the outgoing buffer is exactly full: a reader that does not read Listen() (c17_lazy.go)
+	c.c17LazyRun(nil)
 }
 
 // runC17Race: concurrent use; meaningful only in the binary built with -race (the race detector aborts with exit code 66).
